@@ -8,4 +8,8 @@ HERE=$(cd "$(dirname "$0")" && pwd)
 export CARGO_NET_OFFLINE=true CARGO_TARGET_DIR=$HERE/../../.target/xcheck
 [ -f $HERE/Cargo.lock ] || cp /repo/Cargo.lock $HERE/Cargo.lock
 (cd $HERE && cargo build --release --offline 2>&1 | tail -1)
-exec $CARGO_TARGET_DIR/release/xcheck --seed ${1:-1} --cases ${2:-200000} --out $HERE/../xcheck-report.json
+rc=0
+$CARGO_TARGET_DIR/release/xcheck --seed ${1:-1} --cases ${2:-200000} --out $HERE/../xcheck-report.json || rc=1
+# the XML well-formedness checker of C27 against expat
+python3 $HERE/xml_crosscheck.py $CARGO_TARGET_DIR/release/xcheck ${1:-1} 50000 || rc=1
+exit $rc
